@@ -37,6 +37,8 @@ pub struct Profile {
     pub p_sub_from_const: f64,
     pub p_div_zero_zero: f64,
     pub p_stale_slot_after_pop: f64,
+    /// several labels on one function entry
+    pub p_alias_label: f64,
 }
 
 impl Profile {
@@ -63,6 +65,7 @@ impl Profile {
             p_sub_from_const: 0.0,
             p_div_zero_zero: 0.0,
             p_stale_slot_after_pop: 0.0,
+            p_alias_label: 0.15,
         }
     }
     /// Supported-subset programs that need not be conforming (C01, C02, C03, C11, C12).
@@ -88,6 +91,7 @@ impl Profile {
             p_sub_from_const: 0.05,
             p_div_zero_zero: 0.02,
             p_stale_slot_after_pop: 0.02,
+            p_alias_label: 0.15,
         }
     }
 }
@@ -217,6 +221,8 @@ const TEMP_MASK: u32 = 0xF000_00E0;
 
 struct Sig {
     name: String,
+    /// further labels on the same entry
+    aliases: Vec<String>,
     args: Vec<Reg>,
     rets: Vec<Reg>,
     recursive: bool,
@@ -655,7 +661,14 @@ impl<'a> G<'a> {
     fn call(&mut self, f: &mut F, callee: usize, rec_arg_from: Option<Reg>) {
         let args = self.sigs[callee].args.clone();
         let rets = self.sigs[callee].rets.clone();
-        let name = self.sigs[callee].name.clone();
+        let name = {
+            let sg = &self.sigs[callee];
+            if !sg.aliases.is_empty() && self.rng.chance(0.5) {
+                sg.aliases[self.rng.below(sg.aliases.len())].clone()
+            } else {
+                sg.name.clone()
+            }
+        };
         let callee_rec = self.sigs[callee].recursive;
         // a temporary that is assigned before the call and (wrongly) read after it
         let mut stale_temp: Option<Reg> = None;
@@ -1220,7 +1233,18 @@ impl<'a> G<'a> {
             no_calls: u32::from(leaf),
             no_ecalls: u32::from(fragile_acc),
         };
+        let aliases = self.sigs[me].aliases.clone();
+        for (k, a) in aliases.iter().enumerate() {
+            if k % 2 == 0 {
+                self.emit_label(a);
+            }
+        }
         self.emit_label(&name);
+        for (k, a) in aliases.iter().enumerate() {
+            if k % 2 == 1 {
+                self.emit_label(a);
+            }
+        }
         let first_line = self.out.len();
         self.prologue(&mut f);
         {
@@ -1381,7 +1405,12 @@ pub fn generate(rng: &mut Rng, prof: &Profile, inject: Option<Inject>) -> Genera
             1 | 2 => vec![A0],
             _ => vec![A0, A1],
         };
-        sigs.push(Sig { name: format!("fn_{k}"), args, rets, recursive });
+        let aliases = if rng.chance(prof.p_alias_label) {
+            (0..1 + rng.below(2)).map(|a| format!("fn_{k}_alias{a}")).collect()
+        } else {
+            vec![]
+        };
+        sigs.push(Sig { name: format!("fn_{k}"), aliases, args, rets, recursive });
     }
     let inject_fn = match inject {
         Some(
